@@ -85,8 +85,70 @@ func drawFlateMsg(r *eng.Run) []byte {
 
 // C12: permessage-deflate payloads round-trip and interoperate with standard
 // DEFLATE.
+// c12DestFault: the destination of the compression writer fails at one write
+// call (for good, or only that once). Either some call of the history reports
+// an error, or what the destination received inflates to the message: a hole
+// in the compressed stream must never go unreported.
+func c12DestFault(r *eng.Run) {
+	r.SetEntry("wsflate.Writer/destination-fault")
+	level := r.T.Range(sim.LCfg, -2, 9)
+	msg := drawFlateMsg(r)
+	if len(msg) < 8 {
+		msg = append(msg, patBytes(3, 0, 8)...)
+	}
+	dst := NewPipe(r, nil)
+	dst.WFailAt, dst.WFailN = r.T.Int(sim.LFaultAt, 8), r.T.Int(sim.LFaultAt, 3)
+	dst.FailOnce, dst.NetErr = r.T.Bool(sim.LFault), r.T.Chance(sim.LFault, 1, 3)
+	w := wsflate.NewWriter(dst, flateCtor(level))
+	var hist []string
+	allNil := true
+	do := func(name string, err error) {
+		hist = append(hist, name+"="+errStr(err))
+		if err != nil {
+			allNil = false
+		}
+	}
+	pos := 0
+	for i, steps := 0, 1+r.T.Int(sim.LHist, 5); i < steps; i++ {
+		if r.T.Chance(sim.LHist, 1, 3) {
+			do("Flush", w.Flush())
+			continue
+		}
+		k := r.T.Int(sim.LSeg, len(msg)-pos+1)
+		_, err := w.Write(msg[pos : pos+k])
+		do(fmt.Sprintf("Write(%d)", k), err)
+		if err == nil {
+			pos += k
+		}
+	}
+	if allNil {
+		_, err := w.Write(msg[pos:])
+		do(fmt.Sprintf("Write(%d)", len(msg)-pos), err)
+	}
+	do("Flush", w.Flush())
+	if r.T.Bool(sim.LHist) {
+		do("Close", w.Close())
+	}
+	do("Err", w.Err())
+	r.Note("C12 destination fault at write call %d after %d bytes (once=%v): level=%d msg=%d bytes history %v", dst.WFailAt, dst.WFailN, dst.FailOnce, level, len(msg), hist)
+	if !dst.WriteFailed() {
+		return // the history needed fewer destination writes
+	}
+	r.Fault("compressed_stream_destination_fault")
+	r.Res.Nontrivial = true
+	if !allNil {
+		return
+	}
+	got, err := inflateIndependent(dst.Out)
+	if err != nil || !bytes.Equal(got, msg) {
+		r.Failf("corrupt_message_reported_as_success", "destination write call %d failed after %d bytes (once=%v) yet every call returned nil %v; what the destination received does not inflate to the message (%v, %d of %d bytes)", dst.WFailAt, dst.WFailN, dst.FailOnce, hist, err, len(got), len(msg))
+	}
+}
+
 func C12(r *eng.Run) {
-	switch r.T.Int(sim.LEntry, 8) {
+	switch r.T.Int(sim.LEntry, 9) {
+	case 8:
+		c12DestFault(r)
 	case 0, 1, 2:
 		c12Writer(r)
 	case 3, 4, 5:
@@ -130,12 +192,21 @@ func c12Writer(r *eng.Run) {
 	if n, err := w.Write(msg[pos:]); err != nil || n != len(msg)-pos {
 		r.Failf("unexpected_error", "Write(%d) = %d, %v", len(msg)-pos, n, err)
 	}
-	hist = append(hist, fmt.Sprintf("Write(%d)", len(msg)-pos), "Flush")
-	if err := w.Flush(); err != nil {
-		r.Failf("unexpected_error", "final Flush: %v (history %v)", err, hist)
+	hist = append(hist, fmt.Sprintf("Write(%d)", len(msg)-pos))
+	// The message ends with Flush [, Close] - or, the compressor being a
+	// closer (compress/flate is), with Close alone, which flushes what is
+	// pending and ends the stream.
+	closeOnly := r.T.Chance(sim.LHist, 1, 4)
+	if !closeOnly {
+		hist = append(hist, "Flush")
+		if err := w.Flush(); err != nil {
+			r.Failf("unexpected_error", "final Flush: %v (history %v)", err, hist)
+		}
+	} else {
+		r.Probe("message_ended_by_close_without_flush")
 	}
 	afterFlush := append([]byte(nil), dst.Out...)
-	closed := r.T.Bool(sim.LHist)
+	closed := closeOnly || r.T.Bool(sim.LHist)
 	if closed {
 		hist = append(hist, "Close")
 		if err := w.Close(); err != nil {
@@ -144,7 +215,10 @@ func c12Writer(r *eng.Run) {
 	}
 	r.Note("C12 wsflate.Writer level=%d msg=%d bytes history %v -> %d bytes", level, len(msg), hist, len(dst.Out))
 	r.Res.Nontrivial = len(hist) > 2
-	for _, out := range [][]byte{afterFlush, dst.Out} {
+	for i, out := range [][]byte{afterFlush, dst.Out} {
+		if i == 0 && closeOnly {
+			continue // nothing was promised before the Close
+		}
 		got, err := inflateIndependent(out)
 		if err != nil {
 			r.Failf("not_standard_deflate", "writer output (+00 00 ff ff) does not inflate: %v (level %d, history %v, output %x)", err, level, hist, head(out, 24))
@@ -184,6 +258,76 @@ func c12Writer(r *eng.Run) {
 		}
 		r.Probe("writer_reused_across_messages")
 	}
+	if r.T.Chance(sim.LHist, 1, 4) {
+		c12TwoWriters(r)
+	}
+}
+
+// c12TwoWriters: two long-lived Writers built on the default helper's
+// compressor (two connections of one process), each closed and re-armed with
+// Reset between its messages, their calls interleaved by the tape. Every
+// message must inflate on its own to what was written to that Writer.
+func c12TwoWriters(r *eng.Run) {
+	type conn struct {
+		w    *wsflate.Writer
+		out  *Pipe
+		msg  []byte
+		pos  int
+		open bool
+		n    int
+	}
+	cs := []*conn{{}, {}}
+	finish := func(c *conn, k int) {
+		if _, err := c.w.Write(c.msg[c.pos:]); err != nil {
+			r.Failf("unexpected_error", "writer %d: Write: %v", k, err)
+		}
+		if err := c.w.Flush(); err != nil {
+			r.Failf("unexpected_error", "writer %d: Flush: %v", k, err)
+		}
+		if r.T.Bool(sim.LHist) {
+			if err := c.w.Close(); err != nil {
+				r.Failf("unexpected_error", "writer %d: Close: %v", k, err)
+			}
+		}
+		got, err := inflateIndependent(c.out.Out)
+		if err != nil || !bytes.Equal(got, c.msg) {
+			r.Failf("roundtrip_mismatch", "two Writers on the default helper's compressor: message %d of writer %d (%d bytes) does not inflate on its own to what was written (%v, got %d bytes)", c.n, k, len(c.msg), err, len(got))
+		}
+		c.open = false
+		c.n++
+	}
+	for step := 0; step < 6+r.T.Int(sim.LHist, 10); step++ {
+		k := r.T.Int(sim.LSched, 2)
+		c := cs[k]
+		if !c.open {
+			c.msg = drawFlateMsg(r)
+			if len(c.msg) > 3000 {
+				c.msg = c.msg[:3000]
+			}
+			c.pos, c.out, c.open = 0, NewPipe(r, nil), true
+			if c.w == nil {
+				c.w = wsflate.NewWriter(c.out, wsflate.DefaultHelper.Compressor)
+			} else {
+				c.w.Reset(c.out)
+			}
+			continue
+		}
+		if r.T.Chance(sim.LHist, 1, 3) {
+			finish(c, k)
+			continue
+		}
+		n := r.T.Int(sim.LSeg, len(c.msg)-c.pos+1)
+		if _, err := c.w.Write(c.msg[c.pos : c.pos+n]); err != nil {
+			r.Failf("unexpected_error", "writer %d: Write: %v", k, err)
+		}
+		c.pos += n
+	}
+	for k, c := range cs {
+		if c.open {
+			finish(c, k)
+		}
+	}
+	r.Probe("two_writers_on_default_compressor_interleaved")
 }
 
 // c12ReadBack feeds compressed to wsflate.Reader through a segmented source.
